@@ -519,6 +519,84 @@ Definition verdict_extract_client_C05 (a : list val) (out : val) : N :=
   | _ => NOT_JUDGED
   end.
 
+(* ---------- extract_hand: args [start; fields; frame; tcp] ----------
+   A BuilderRequest made by hand (or re-ordered by its user): StartAddress and Fields in ANY order,
+   addresses before the start or beyond the reply included, in first / middle / last position.
+   ExtractFields (strict, lenient) on the response parsed from [frame].  Outcome [0; strict;
+   lenient] | [4] (frame does not parse). *)
+Definition hand_request (start : N) (fields : list field) : breq :=
+  {| br_req := RSrvId 0; br_tcp := true; br_server := []; br_unit := 0; br_start := start; br_fields := fields |}.
+Definition run_extract_hand (a : list val) : val :=
+  match a with
+  | [VI start; VL fvs; VB frame; VI tcp] =>
+      match fields_of_vals 0 fvs with
+      | Some fields =>
+          let r := hand_request (zN start) fields in
+          let parsed := if zbool tcp then map_ok snd (parse_tcp_response (exact frame))
+                        else parse_rtu_response_crc (exact frame) in
+          let spare := if zbool tcp then [] else skipn (length frame - 2) frame in
+          match parsed with
+          | Ok p => v_ok [proj_xres (extract_fields r p spare false); proj_xres (extract_fields r p spare true)]
+          | Err _ => VL [VI 4%Z]
+          | Panic => v_panic
+          end
+      | None => v_bad
+      end
+  | _ => v_bad
+  end.
+
+(* judged for FC1 / FC2 replies, from the frame bytes (Modbus layout) and the member list alone:
+   lenient mode returns one entry per member, in member order, a value iff the member's address is
+   one of the coil positions of the reply, an error otherwise, and flags errors iff there is one;
+   strict mode fails as a whole iff some member is outside and otherwise returns the same entries.
+   With [values] the reported coil states are compared with the reply's bits (LSB of the first
+   data byte = coil at the start address): a difference is code 120 (known finding of C11, reply
+   of two or more bytes) or a violation (one byte). *)
+Fixpoint hand_entries (start : N) (data : list N) (i : nat) (fs : list field) (es : list val)
+  : bool * bool :=            (* structure as required, values as the specification says *)
+  match fs, es with
+  | [], [] => (true, true)
+  | f :: fs', e :: es' =>
+      let '(s, v) := hand_entries start data (S i) fs' es' in
+      if coil_inside start (8 * N.of_nat (length data)) (f_addr f) then
+        match e with
+        | VL [VI id; VI 0%Z; VI b] =>
+            (s && Z.eqb id (Z.of_nat i), v && Bool.eqb (zbool b) (coil_at data (f_addr f - start)))
+        | _ => (false, v)
+        end
+      else
+        match e with
+        | VL [VI id; VI 1%Z] => (s && Z.eqb id (Z.of_nat i), v)
+        | _ => (false, v)
+        end
+  | _, _ => (false, true)
+  end.
+Definition verdict_extract_hand (values : bool) (a : list val) (out : val) : N :=
+  match a with
+  | [VI start; VL fvs; VB frame; VI tcp] =>
+      match fields_of_vals 0 fvs with
+      | Some fields =>
+          let off := if zbool tcp then 7%nat else 1%nat in
+          let fc := nth off frame 0 in
+          let data := firstn (N.to_nat (nth (S off) frame 0)) (skipn (off + 2) frame) in
+          if negb ((fc =? 1) || (fc =? 2)) then NOT_JUDGED else
+          match out with
+          | VL [VI 0%Z; st; VL [VI c; VL es]] =>
+              let any_out := existsb (fun f => negb (coil_inside (zN start) (8 * N.of_nat (length data)) (f_addr f))) fields in
+              let '(s, v) := hand_entries (zN start) data 0 fields es in
+              let flag_ok := Z.eqb c (if any_out then 3 else 0) in
+              let strict_ok := if any_out then val_eqb st (VL [VI 1%Z]) else val_eqb st (VL [VI 0%Z; VL es]) in
+              if negb (s && flag_ok && strict_ok) then VIOLATES
+              else if negb values || v then HOLDS
+              else if (2 <=? length data)%nat then KF_COIL_BYTE_ORDER else VIOLATES
+          | VL [VI 4%Z] => NOT_JUDGED
+          | _ => VIOLATES
+          end
+      | None => NOT_JUDGED
+      end
+  | _ => NOT_JUDGED
+  end.
+
 (* ---------- the table of this layer ---------- *)
 Open Scope string_scope.
 Open Scope N_scope.
@@ -533,5 +611,8 @@ Definition table_builder : list entry :=
        e_verdict := fun p a o => if p =? 13 then verdict_extract_seq_C13 a o else NOT_JUDGED |};
     {| e_name := "split_seq"; e_run := run_split_seq; e_verdict := verdict_split_seq |};
     {| e_name := "extract_client"; e_run := run_extract_client;
-       e_verdict := fun p a o => if p =? 5 then verdict_extract_client_C05 a o else NOT_JUDGED |}
+       e_verdict := fun p a o => if p =? 5 then verdict_extract_client_C05 a o else NOT_JUDGED |};
+    {| e_name := "extract_hand"; e_run := run_extract_hand;
+       e_verdict := fun p a o => if p =? 11 then verdict_extract_hand true a o
+                                 else if p =? 5 then verdict_extract_hand false a o else NOT_JUDGED |}
   ].
